@@ -51,6 +51,13 @@ def cases(tier, seed, i, n):
                         if tier == 'quick' and size > 70000 and k % 3:
                             continue
                         yield dict(kind='sim', tls=tls, size=size, shape=shape, rec=rec, short=short, nb=2 if shape != 'ends-with-empty' else 4, seed=k)
+        for bufsize in (4096, 1000, 16384, 100000):
+            for size in (300, 16000, 20000, 70000):
+                for shape in ('one-message', 'many-small'):
+                    k += 1
+                    yield dict(kind='sim', tls=True, size=size, shape=shape, rec=16384, short=None, nb=2, seed=k, bufsize=bufsize)
+                    if bufsize < 16384:
+                        yield dict(kind='sim', tls=False, size=size, shape=shape, rec=None, short=None, nb=2, seed=k, bufsize=bufsize)
         for tls in (False, True):
             for size in (300, 20000, 70000):
                 for pf in ('pipe', 'timeout', 'reset'):
@@ -214,7 +221,12 @@ def run_case(case, acc):
             pass
         ws0 = r0.ws
         acc.count2('oracle', 'reconnect_runs')
-    run = H.drive(w, url=url, ws=ws0, ws_kwargs=wskw, connect_kwargs=dict(ping_rate=0, poll=5.0))
+    sclass = None
+    if case.get('bufsize'):
+        # a session class with a receive buffer smaller than a TLS record (BUFFER_SIZE is a documented class attribute)
+        sclass = type('SmallBufferSession', (simnet.SimSession,), dict(BUFFER_SIZE=case['bufsize']))
+        acc.count2('oracle', 'small_receive_buffer_runs')
+    run = H.drive(w, url=url, ws=ws0, ws_kwargs=wskw, connect_kwargs=dict(ping_rate=0, poll=5.0), session_class=sclass)
     acc.count2('oracle', 'tls_runs' if tls else 'plain_runs')
     key = None
     detail = dict(end=run.end, exc=run.exc, blocked_waits=w.blocked_waits, blocked_with_pending=w.blocked_with_pending[:5],
